@@ -358,7 +358,8 @@ static void iauth_xquery_x_reply(const char service[], const char routing[],
         "%s-%s: ref_mask=%#x", routing, srv->name, cli->ref_mask);
     if (--srv->refs == 0)
         iauth_xquery_unref(ii);
-    if (cli->ref_mask == 0)
+    /* The request timeout may have zeroed the soft holds meanwhile. */
+    if ((cli->ref_mask == 0) && (req->soft_holds > 0))
         --req->soft_holds;
     iauth_check_request(req);
 }
